@@ -22,7 +22,9 @@ ASSUMPTIONS = ['virtual time: library processing takes zero time, so setpoint in
 REQUIRED = ['mon.mc_programs', 'mon.mc_exceptions_in_body', 'mon.mc_hover_setpoints', 'mon.mc_primitives_checked',
             'mon.hl_programs', 'mon.hl_goto_checked', 'mon.hl_exceptions_in_body', 'mon.quiet_after_landing',
             'mon.mc_consecutive_motions_with_same_vertical_velocity', 'mon.mc_statement_level_preemption_runs',
-            'mon.mc_flights_ending_below_take_off_level', 'mon.mc_identical_velocity_commanded_again']
+            'mon.mc_flights_ending_below_take_off_level', 'mon.mc_identical_velocity_commanded_again',
+            'mon.mc_programs_over_the_real_commander_legacy_firmware', 'mon.mc_legacy_setpoints_with_yaw_rate',
+            'mon.hl_programs_over_the_real_hl_commander']
 DESC_TIMEOUT = 900
 PERIOD = 0.2
 
@@ -60,6 +62,78 @@ class StubCf:
 
     def is_connected(self):
         return True
+
+
+class _Platform:
+    def __init__(self, ver):
+        self._v = ver
+
+    def get_protocol_version(self):
+        return self._v
+
+
+class WireCf:
+    """Crazyflie stand-in with the real Commander and HighLevelCommander: what is logged is what a firmware of the given
+    protocol version decodes from the packets that reach the link (legacy hover setpoints carry the yaw rate negated)."""
+
+    def __init__(self, ver):
+        from cflib.crazyflie.commander import Commander
+        from cflib.crazyflie.high_level_commander import HighLevelCommander
+        self.log = []
+        self.ver = ver
+        self.undecodable = []
+        self.platform = _Platform(ver)
+        self.commander = Commander(self)
+        self.high_level_commander = HighLevelCommander(self)
+        self.param = Rec(self.log, 'param.', ['set_value'])
+
+    def is_connected(self):
+        return True
+
+    def send_packet(self, pk, expected_reply=(), resend=False, timeout=0.2):
+        import struct
+        from vf import detsched as ds
+        s = ds.CUR
+        now = s.now if s else 0.0
+        d = bytes(pk.data)
+        ent = None
+        try:
+            if pk.port == 7 and pk.channel == 0:
+                if d[0] == 0 and len(d) == 1:
+                    ent = ('cmd.send_stop_setpoint', ())
+                elif d[0] == 5 and len(d) == 17:
+                    vx, vy, yaw, z = struct.unpack('<ffff', d[1:])
+                    ent = ('cmd.send_hover_setpoint', (vx, vy, -yaw, z))
+                elif d[0] == 10 and len(d) == 17 and self.ver >= 9:
+                    ent = ('cmd.send_hover_setpoint', struct.unpack('<ffff', d[1:]))
+            elif pk.port == 7 and pk.channel == 1:
+                if d[0] == 0 and len(d) == 5:
+                    ent = ('cmd.send_notify_setpoint_stop', ())
+            elif pk.port == 8 and pk.channel == 0:
+                if d[0] == 7 and len(d) == 15:
+                    _, grp, h, yaw, cur, dur = struct.unpack('<BBff?f', d)
+                    if grp == 0 and yaw == 0.0 and not cur:
+                        ent = ('hl.takeoff', (h, dur))
+                elif d[0] == 8 and len(d) == 15:
+                    _, grp, h, yaw, cur, dur = struct.unpack('<BBff?f', d)
+                    if grp == 0 and yaw == 0.0 and not cur:
+                        ent = ('hl.land', (h, dur))
+                elif d[0] == 3 and len(d) == 2 and d[1] == 0:
+                    ent = ('hl.stop', ())
+                elif d[0] == 4 and len(d) == 23:
+                    _, grp, rel, x, y, z, yaw, dur = struct.unpack('<BBBfffff', d)
+                    if grp == 0 and not rel:
+                        ent = ('hl.go_to', (x, y, z, yaw, dur))
+                elif d[0] == 12 and len(d) == 24 and self.ver >= 8:
+                    _, grp, rel, lin, x, y, z, yaw, dur = struct.unpack('<BBBBfffff', d)
+                    if grp == 0 and not rel and not lin:
+                        ent = ('hl.go_to', (x, y, z, yaw, dur))
+        except Exception:  # noqa
+            ent = None
+        if ent is None:
+            self.undecodable.append((now, pk.port, pk.channel, d.hex()))
+        else:
+            self.log.append((now, ent[0], tuple(ent[1]), {}))
 
 
 class Boom(Exception):
@@ -157,12 +231,17 @@ def run_mc(desc, ctx):
     from vf import detsched as ds
     from cflib.positioning.motion_commander import MotionCommander
     rnd = random.Random(desc['seed'])
+    wrnd = random.Random(desc['seed'] * 7919 + 13)
     for it in range(desc['n']):
         h0, prog = gen_mc_program(rnd)
         boom_at = rnd.choice((None, None, rnd.randint(0, len(prog))))
         form = rnd.choice(('with', 'explicit'))
         tk_v = rnd.choice((0.2, 0.5, rnd.uniform(0.1, 1.0)))
-        cf = StubCf()
+        # every other program flies over the real Commander, against a firmware of some protocol version
+        wire = wrnd.choice((None, None, None, None, None, 10, 9, 8, 7, 5))
+        cf = StubCf() if wire is None else WireCf(wire)
+        E9 = 1e-9 if wire is None else 2e-6
+        E7 = 1e-7 if wire is None else 2e-5
         ob = {'segments': [], 'escaped': None, 'thread': None, 't_land_done': None}
 
         def seg(s, vel, dur):
@@ -263,6 +342,8 @@ def run_mc(desc, ctx):
         # suspended between any two statements while the commanding thread lands
         for pol in ('rtb', 'random', 'pct', 'line', 'line2'):
             cf.log.clear()
+            if wire is not None:
+                del cf.undecodable[:]
             ob.update({'segments': [], 'escaped': None, 'thread': None, 'prims': []})
             ob.pop('boom', None)
             if pol.startswith('line'):
@@ -279,8 +360,16 @@ def run_mc(desc, ctx):
             ctx.count('mon.mc_consecutive_motions_with_same_vertical_velocity', ob.pop('same_vz', 0))
             ctx.count('mon.mc_identical_velocity_commanded_again', ob.pop('same_vel', 0))
             info = {'program': core.jsonable(prog)[:8], 'default_height': h0, 'exception_before_primitive': boom_at, 'form': form,
-                    'schedule': pol}
+                    'schedule': pol, 'real_commander_firmware_protocol_version': wire}
             rp = {'seed': desc['seed'], 'kind': 'mc', 'n': it + 1}
+            if wire is not None:
+                ctx.count('mon.mc_programs_over_the_real_commander')
+                if wire <= 8:
+                    ctx.count('mon.mc_programs_over_the_real_commander_legacy_firmware')
+                    ctx.count('mon.mc_legacy_setpoints_with_yaw_rate', sum(1 for c in cf.log if c[1] == 'cmd.send_hover_setpoint' and c[2][2] != 0.0))
+                if cf.undecodable:
+                    ctx.violate('mc:wire:packet-the-firmware-cannot-decode', dict(info, packets=cf.undecodable[:3]), replay=rp)
+                    break
             if abort is not None:
                 ctx.violate('mc:hang:%s' % type(abort).__name__, dict(info, abort=str(abort), threads=abort.table), replay=rp)
                 break
@@ -340,11 +429,11 @@ def run_mc(desc, ctx):
                     break
                 prev_t = t
                 if t <= t_body_end + 1e-9:
-                    ok = any(abs(vx - v[0]) < 1e-9 and abs(vy - v[1]) < 1e-9 and abs(yaw - v[3]) < 1e-9 for v in vel_at(t))
+                    ok = any(abs(vx - v[0]) < E9 * max(1, abs(v[0])) and abs(vy - v[1]) < E9 * max(1, abs(v[1])) and abs(yaw - v[3]) < E9 * max(1, abs(v[3])) for v in vel_at(t))
                     if not ok:
                         bad = ('mc:hover-setpoint-velocity-differs-from-commanded', {'at': t, 'got': (vx, vy, yaw), 'expected_any_of': vel_at(t)[:3]})
                         break
-                    if abs(z - z_at(t)) > 1e-9 * max(1.0, abs(z)):
+                    if abs(z - z_at(t)) > E9 * max(1.0, abs(z)):
                         bad = ('mc:hover-height-does-not-integrate-vertical-velocity', {'at': t, 'z': z, 'reference': z_at(t)})
                         break
             if bad:
@@ -385,7 +474,7 @@ def run_mc(desc, ctx):
                 else:
                     r, ang = a
                     want = (2 * r * math.pi * ang / 360.0, 0, 0, ang if k == 'circle_left' else -ang)
-                if any(abs(d - w) > 1e-7 * max(1.0, abs(w)) for d, w in zip(disp, want)):
+                if any(abs(d - w) > E7 * max(1.0, abs(w)) for d, w in zip(disp, want)):
                     ctx.violate('mc:primitive-%s-commanded-displacement-differs' % k,
                                 dict(info, primitive=(k, a, v), commanded=disp, requested=want), replay=rp)
                     break
@@ -401,6 +490,7 @@ def run_hl(desc, ctx):
     harness.init()
     from cflib.positioning.position_hl_commander import PositionHlCommander
     rnd = random.Random(desc['seed'])
+    wrnd = random.Random(desc['seed'] * 7919 + 17)
     for it in range(desc['n']):
         x0, y0, z0 = rnd.uniform(-2, 2), rnd.uniform(-2, 2), rnd.choice((0.0, 0.0, rnd.uniform(0, 0.5)))
         dv, dh = rnd.choice((0.5, 0.2, rnd.uniform(0.1, 2))), rnd.choice((0.5, 1.0, rnd.uniform(0.3, 2)))
@@ -449,7 +539,9 @@ def run_hl(desc, ctx):
             # touch down before leaving the context: the last motion ends exactly on the landing height
             prog.append(('down', z - lh, None) if rnd.random() < 0.5 else ('go_to', (rnd.uniform(-1, 1), rnd.uniform(-1, 1), lh), None))
         boom_at = rnd.choice((None, None, rnd.randint(0, len(prog))))
-        cf = StubCf()
+        wire = wrnd.choice((None, None, None, None, 10, 8, 7, 5))
+        cf = StubCf() if wire is None else WireCf(wire)
+        E9 = 1e-9 if wire is None else 2e-6
         ob = {'exp': [], 'pos': None, 'escaped': None}
 
         def fn(s):
@@ -516,8 +608,13 @@ def run_hl(desc, ctx):
         ctx.evals()
         ctx.count('mon.hl_programs')
         info = {'program': core.jsonable(prog)[:8], 'start': (x0, y0, z0), 'default_velocity': dv, 'default_height': dh,
-                'landing_height': lh, 'exception_before_primitive': boom_at}
+                'landing_height': lh, 'exception_before_primitive': boom_at, 'real_hl_commander_firmware_protocol_version': wire}
         rp = {'seed': desc['seed'], 'kind': 'hl', 'n': it + 1}
+        if wire is not None:
+            ctx.count('mon.hl_programs_over_the_real_hl_commander')
+            if cf.undecodable:
+                ctx.violate('hl:wire:packet-the-firmware-cannot-decode', dict(info, packets=cf.undecodable[:3]), replay=rp)
+                continue
         if abort is not None or sch.deaths:
             ctx.violate('hl:hang-or-thread-death', dict(info, abort=str(abort)), replay=rp)
             continue
@@ -540,7 +637,7 @@ def run_hl(desc, ctx):
         mism = None
         if ok:
             for (gn, ga), (en, ea) in zip(calls, ob['exp']):
-                if gn != en or len(ga) != len(ea) or any(abs(a - b) > 1e-9 * max(1.0, abs(b)) for a, b in zip(ga, ea)):
+                if gn != en or len(ga) != len(ea) or any(abs(a - b) > E9 * max(1.0, abs(b)) for a, b in zip(ga, ea)):
                     ok = False
                     mism = ((gn, ga), (en, ea))
                     break
